@@ -9,6 +9,7 @@ import (
 	"errors"
 	"fmt"
 	"io"
+	"sync"
 
 	cose "github.com/veraison/go-cose"
 )
@@ -147,6 +148,48 @@ func runC10(c *Collector, r *Rng, thorough bool) {
 			addCase(c, "refuse-payloadless", op, obs, true)
 			if !errors.Is(err, cose.ErrMissingPayload) || len(sg.calls) > 0 {
 				c.Fail("C10/payloadless-parent", "payload-less parent not refused with ErrMissingPayload", map[string]any{"op": trunc(op, 700)})
+			}
+		}
+	}
+	// concurrent countersigning of distinct parents with one signer: every result belongs to its own parent
+	{
+		keysC := realKeySet(r)
+		rounds := 4
+		if thorough {
+			rounds = 60
+		}
+		for rd := 0; rd < rounds; rd++ {
+			k := keysC[rd%len(keysC)]
+			const G = 12
+			parents := make([]*cose.Sign1Message, G)
+			full := make([]*cose.Countersignature, G)
+			abbr := make([][]byte, G)
+			errsF := make([]error, G)
+			errsA := make([]error, G)
+			yr := &yieldingReader{r: r.Fork()}
+			var wg sync.WaitGroup
+			for g := 0; g < G; g++ {
+				parents[g] = &cose.Sign1Message{Headers: cose.Headers{Protected: cose.ProtectedHeader{cose.HeaderLabelAlgorithm: k.alg, int64(4): []byte(fmt.Sprintf("kid-%d-%d", rd, g))}}, Payload: []byte(fmt.Sprintf("payload %d/%d with some length to it", rd, g)), Signature: []byte{byte(g), 1, 2, 3}}
+				wg.Add(1)
+				go func(g int) {
+					defer wg.Done()
+					cs := cose.NewCountersignature()
+					cs.Headers.Protected.SetAlgorithm(k.alg)
+					errsF[g] = cs.Sign(yr, k.signer(), parents[g], []byte("ext"))
+					full[g] = cs
+					abbr[g], errsA[g] = cose.Countersign0(yr, k.signer(), *parents[g], []byte("ext"))
+				}(g)
+			}
+			wg.Wait()
+			c.Eval("concurrent-countersign/"+k.alg.String(), fmt.Sprint(rd), true)
+			for g := 0; g < G; g++ {
+				if errsF[g] != nil || errsA[g] != nil {
+					c.Fail("C10/concurrent-countersign-error", fmt.Sprintf("%v / %v", errsF[g], errsA[g]), map[string]any{"alg": k.alg.String()})
+					continue
+				}
+				if full[g].Verify(k.verifier(), parents[g], []byte("ext")) != nil || cose.VerifyCountersign0(k.verifier(), parents[g], []byte("ext"), abbr[g]) != nil {
+					c.Fail("C10/concurrent-countersign-wrong-parent", "a countersignature made while other parents were being countersigned does not verify against its own parent", map[string]any{"alg": k.alg.String()})
+				}
 			}
 		}
 	}
@@ -415,6 +458,36 @@ func runC11(c *Collector, r *Rng, thorough bool) {
 							c.Fail("C11/empty-signature-encoded", fmt.Sprintf("MarshalCBOR emitted %x although a signature slot is %s", out, mode), map[string]any{"op": trunc(op, 900)})
 						}
 					}
+				}
+			}
+		}
+		// nil entries in the verifier / signer lists can never make the call succeed
+		if n >= 1 {
+			for hole := 0; hole < n; hole++ {
+				m := mkMsg(n, 0, 0)
+				vs := make([]cose.Verifier, n)
+				for j := 0; j < n; j++ {
+					if j != hole {
+						vs[j] = &spyVerifier{alg: algs[j]}
+					}
+				}
+				var verr error
+				p, _ := protect(func() { verr = m.Verify(nil, vs...) })
+				c.Eval(fmt.Sprintf("verify-nil-verifier/n=%d", n), fmt.Sprint(hole), true)
+				if !p && verr == nil {
+					c.Fail("C11/nil-verifier-skipped", fmt.Sprintf("Verify returned nil although verifier %d of %d is nil (signature %d was never checked)", hole, n, hole), map[string]any{"n": n, "hole": hole})
+				}
+				ms := mkMsg(n, (1<<n)-1, 0)
+				ss := make([]cose.Signer, n)
+				for j := 0; j < n; j++ {
+					if j != hole {
+						ss[j] = &spySigner{alg: algs[j], kind: SOk, sig: []byte{1}}
+					}
+				}
+				var serr error
+				p, _ = protect(func() { serr = ms.Sign(nil, nil, ss...) })
+				if !p && serr == nil {
+					c.Fail("C11/nil-signer-skipped", fmt.Sprintf("Sign returned nil although signer %d of %d is nil", hole, n), map[string]any{"n": n, "hole": hole})
 				}
 			}
 		}
